@@ -108,7 +108,9 @@ def nontrivial(name, target, facts):
 
 
 def fuse_facts(name, otarget, orig_out, got):
-    """Input-side features of a fusion target (for classifiers)."""
+    """Input-side features of the target (for classifiers)."""
+    if name in ("swap", "tile"):
+        return nest_facts(otarget)
     if name != "fuse":
         return {}
     from psyclone.psyir.backend.fortran import FortranWriter
@@ -147,6 +149,28 @@ def fuse_facts(name, otarget, orig_out, got):
     return facts
 
 
+def nest_facts(outer):
+    """Steps of the two loops of a nest and whether an array written in
+    the nest is also accessed there through a different subscript."""
+    from psyclone.psyir.backend.fortran import FortranWriter
+    from psyclone.psyir.nodes import ArrayReference, Assignment, Loop
+    wrt = FortranWriter()
+    facts = {}
+    inner = outer.loop_body.children[0] if outer.loop_body.children and \
+        isinstance(outer.loop_body.children[0], Loop) else None
+    facts["nest_steps"] = [wrt(outer.step_expr)] + \
+        ([wrt(inner.step_expr)] if inner is not None else [])
+    written, used = {}, {}
+    for ref in outer.walk(ArrayReference):
+        txt = ",".join(wrt(i) for i in ref.indices)
+        used.setdefault(ref.symbol.name.lower(), set()).add(txt)
+        par = ref.parent
+        if isinstance(par, Assignment) and par.lhs is ref:
+            written.setdefault(ref.symbol.name.lower(), set()).add(txt)
+    facts["self_dependence"] = any(len(used[a]) > 1 for a in written)
+    return facts
+
+
 CHECK = dt.TransCheck(PROP, SPEC, PROFILE, nontrivial=nontrivial,
                       facts=fuse_facts)
 
@@ -164,6 +188,14 @@ def _zero_trip(case):
 CLASSIFIERS = {
     "hoist_zero_trip": lambda c: _is(c, "hoist") and _zero_trip(c),
     "replace_zero_trip": lambda c: _is(c, "replace") and _zero_trip(c),
+    # chunk size is not a multiple of a non-unit loop step
+    "chunk_nonunit_step": lambda c: _is(c, "chunk") and
+    c.get("facts", {}).get("step") != "1",
+    "tile_nonunit_step": lambda c: _is(c, "tile") and
+    any(st != "1" for st in c.get("facts", {}).get("nest_steps", ["1"])),
+    # LoopSwapTrans performs no dependence analysis
+    "swap_self_dependence": lambda c: _is(c, "swap") and
+    bool(c.get("facts", {}).get("self_dependence")),
     # an array written in one of the fused loops is accessed in both loops
     # through different subscripts (no dependence-distance check)
     "fuse_array_index_mismatch": lambda c: _is(c, "fuse") and
